@@ -75,6 +75,13 @@ def run(tier):
     hs += raw_blocks(rng, n // 2)
     hs += [histgen.add_external_block_ops(rng, histgen.gen_history(rng, nops=20, comp="none", sizes=[1, 3, 10000]), p=0.6)
            for _ in range(n // 3)]
+    # rotation onto the name in use (named outputs), with and without export, one and several blocks before and after
+    for i in range(12 if tier == "quick" else 120):
+        h = histgen.gen_history(rng, nops=rng.choice([4, 9]), comp=["none", "gz", "xz"][i % 3], out="file", sizes=[2, 10000], rot=False)
+        recs = [o for o in h["ops"] if o["op"] in ("qr", "aec", "mm")] or [{"op": "qr", "r": {"client_port": histgen.nat(7)}}]
+        h["ops"] = (recs[:2] + [{"op": "wb"}] * (i % 2) + recs[2:3] + [{"op": "rot", "export": i % 4 < 2, "same": True}] + recs[:1]
+                    + [{"op": "wb"}] + ([{"op": "rot", "export": True, "same": True}] if i % 3 == 0 else []) + recs[1:2])
+        hs.append(h)
     m = run_histories(chk, hs, {"C02"}, label="c02")
     # partial (short) writes of the operating system on descriptor outputs: no failure of the output, the rest can be
     # offered again - an output closed normally after one, with no exception reported, must still be a complete document
